@@ -9,9 +9,14 @@ own invocations:
          clear_log -- and several calls are made one after the other on one nucleus; every provider / mitochondria
          invocation is attributed to the activation that is executing at that moment)
 """
+import datetime as _dt
 import hashlib
+import io
 import itertools
+import os
 import re
+import sys
+import warnings
 from fractions import Fraction
 
 from . import common
@@ -112,7 +117,24 @@ def ev_gen(g, k, ec):
         if ec is None:
             return g["first"]
         return g["hit"] if ec[0] == g["e0"] else g["miss"]
+    if fam == "mock":      # operon_ai.healing.create_mock_healing_generator(first, healed, <text of error e0>)
+        if ec is None:
+            return g["first"]
+        return g["healed"] if ec[0] == g["e0"] else g["first"]
     raise ValueError(fam)
+
+
+def err_text(e0, mode):
+    """the error-trace text whose id is e0 (see err_id_of_trace)"""
+    if e0 == 0:
+        return "Unknown folding error"
+    return f"stub-error-{e0}" if mode == "stub" else f"All {e0} folding strategies failed"
+
+
+API_KEYS = ("ANTHROPIC_API_KEY", "OPENAI_API_KEY", "GEMINI_API_KEY")
+HEAL_DEFAULTS = {"max_retries": 3}
+SWARM_DEFAULTS = {"max_regen": 3, "max_steps": 10, "thr": 0.9}
+TOOL_DEFAULTS = {"max_iter": 10, "auto": True}
 
 
 def ev_prov(p, k, prev, q=0):
@@ -147,14 +169,23 @@ class C18(Check):
             "sub-agent = nested transcribe_with_tools(limit -1..4, auto on/off) on the same nucleus up to nesting depth 0..3, "
             "clear_log, plain transcribe} x auto_execute x provider without complete_with_tools x no tools x 1..4 consecutive "
             "calls on one nucleus/provider/mitochondria; the budget is checked per activation (outermost and nested); plus "
-            "random scripts. non-trivial = at least one environment invocation; distinct by case content")
+            "random scripts. Beside the grid: the library's create_mock_healing_generator as generator; 2..4 consecutive heal() / "
+            "supervise() calls on ONE loop / swarm (each call checked on its own); constructor and call defaults (max_retries, "
+            "max_regenerations, max_steps_per_worker, entropy_threshold, max_iterations, auto_execute omitted); Nucleus() without "
+            "provider and API keys (auto-detected MockProvider: asks for the tool named in the prompt forever). Fixed shares of all "
+            "cases run with silent=False everywhere (stdout captured), a recording Chaperone.on_misfold callback, a Worker that is "
+            "not a SimpleWorker and records errors in its memory (error hints reach the next worker), a step_timeout, "
+            "get_total_energy_consumed/get_total_tokens_used called inside every tool and between calls, a ProviderConfig, "
+            "non-default Nucleus.base_energy_cost/max_retries - none of which the model sees, so any effect on an observation is a "
+            "mismatch. non-trivial = at least one environment invocation; distinct by case content")
     LEVEL_TEXT = ("Coq theorems for ALL generator / validator / worker / factory / provider / tool functions and all integer limits about "
                   "hand-written models of ChaperoneLoop.heal, RegenerativeSwarm.supervise/_run_worker and Nucleus.transcribe_with_tools "
                   "(structural recursion on the loops' own bounds): call-count bounds, error threading, HEALED/VALID only with a "
                   "validator-accepted structure, otherwise tagged with confidence 0, success only with a marker, <= max_iterations tool "
                   "rounds + 1 completion for EVERY activation of the tool loop (outermost or nested at any depth through tools that "
                   "re-enter the same nucleus; environment = state machines over an arbitrary state type; any entry state and log, any "
-                  "sequence of calls). The models are tied to the code by evaluating them in Coq on every scripted case the real "
+                  "sequence of calls), and for every call of a history of consecutive heal() / supervise() calls on one object. "
+                  "The models are tied to the code by evaluating them in Coq on every scripted case the real "
                   "classes ran (limits 0..4 x adversary families exhaustively) and a Python monitor checks the property on every "
                   "implementation trace.")
     LEVEL_NOTE = ("Trusts: Coq kernel+VM; the correspondence harness; outputs/errors/structures as integer ids; environment callables "
@@ -170,14 +201,20 @@ class C18(Check):
                "transcribe | clear_log | nothing); the Nucleus state the model carries is transcription_log; the model's nesting fuel "
                "(8) exceeds every generated nesting depth (<= 3) and exhaustion would show as the observation [-996] "
                "(c18_tool_fuel_irrelevant)",
+               "auto-detected provider cases: the real MockProvider is driven through a delegating spy and described to the model as "
+               "PBySub (top-level prompts name a registered tool -> that tool every round; otherwise a direct answer) with CConst for "
+               "its default response; tool-call id 'mock_call_tool<t>' is the call code t (argument 0)",
                "confidence arithmetic compared exactly only for dyadic confidence_decay (binary64 exact there); entropy thresholds "
                "are dyadic or in [0.5,2] so 1 - threshold is exact and never within 1e-9 of 1/3, 2/3",
                "the error context is identified through the loop's own _format_error_context; the monitor additionally requires the "
                "error trace text to occur in the context string"]
     ASSUMPTIONS = ["environment callables (generator, worker.step, factory, provider, tools) are deterministic functions of what the "
                    "loop passes them and of their own invocation index",
-                   "one heal()/supervise() call on fresh objects (RegenerativeSwarm._worker_counter is cumulative across supervise() "
-                   "calls on one object); the tool loop is also driven re-entrantly and repeatedly on one object",
+                   "heal()/supervise() are driven once on fresh objects and 2..4 times on one object (RegenerativeSwarm._worker_counter "
+                   "is cumulative across supervise() calls: a later call's workers continue the numbering; total_workers_spawned is "
+                   "only demanded of the first call); the tool loop is also driven re-entrantly and repeatedly on one object",
+                   "console output (silent=False) is captured into a StringIO; real LLM providers (API key present) are not driven - "
+                   "auto-detection is exercised only down to the MockProvider fallback with the three API-key variables removed",
                    "stub provider = function of its own global invocation index, the base prompt and the tool results in the prompt "
                    "(the Coq theorems allow an arbitrary stateful provider and arbitrary stateful tools)",
                    "an exception raised by the generator / worker / factory / provider propagates (no result is returned)"]
@@ -378,9 +415,168 @@ class C18(Check):
                                     "has_method": True, "max_iter": mi, "depth": 1, "more": more})
         return out
 
+    # -- aspects the model does not see (they must not change any observation) -------------
+    @staticmethod
+    def _decorate(cases):
+        """switch on, for fixed shares of the enumerated cases (by position, so every combination occurs):
+        console output (silent=False everywhere, stdout captured), recording callbacks, a Worker that is not a
+        SimpleWorker and records errors in its memory, a step_timeout, read-only accessor calls between the
+        operations, a ProviderConfig, non-default Nucleus fields.  None of these is passed to the Coq model."""
+        out = []
+        n = {"heal": 0, "swarm": 0, "tool": 0}
+        for c in cases:
+            k = c["kind"]
+            i = n[k]
+            n[k] += 1
+            c = dict(c)
+            if i % 3 == 1:
+                c["loud"] = True
+            if k == "swarm":
+                if i % 4 == 2:
+                    c["wk"] = "proto"
+                if i % 5 == 3:
+                    c["timeout"] = [0.0, 1e-9, 30.0][i % 3]
+            if k == "tool":
+                if i % 4 == 2:
+                    c["acc"] = True
+                if i % 5 == 3:
+                    c["cfg"] = True
+                if i % 7 == 4:
+                    c["nuc"] = [[0, 0], [1, 1], [25, 7], [10, -1]][i % 4]
+            out.append(c)
+        return out
+
+    def _extra_cases(self, deep):
+        """public entry points / configurations beside the enumerated grid: the library's own mock healing generator,
+        constructor and call defaults (arguments omitted), consecutive heal()/supervise() calls on ONE object, and a
+        Nucleus that auto-detects its provider (no API keys -> MockProvider, which asks for a tool whenever the
+        prompt names one, i.e. forever)"""
+        o = self._out
+        out = []
+        lim = [0, 1, 2, 3, 4, -1] + ([5, 6] if deep else [])
+        i = 0
+        # create_mock_healing_generator
+        for mode, ns, e0s in (("real", 4, (4, 2, 0)), ("real", 2, (2, 4)), ("stub", 0, (5, 6, 0, 9))):
+            for e0 in e0s:
+                for first, healed in ((o(0, 3), o(1, 61)), (o(4, 3), o(2, 62)), (o(5, 3), o(0, 4)), (o(6, 3), o(3, 63)),
+                                      (o(1, 5), o(1, 6))):
+                    for mr in lim:
+                        i += 1
+                        c = {"kind": "heal", "mode": mode, "nstrat": ns, "decay": DECAYS[i % len(DECAYS)], "max_retries": mr,
+                             "gen": {"fam": "mock", "first": first, "healed": healed, "e0": e0}}
+                        if i % 2:
+                            c["loud"] = True
+                        if i % 5 == 0:
+                            c["again"] = 1
+                        out.append(c)
+        # defaults: max_retries omitted (= 3)
+        for g in self._heal_behaviours(False)[::3]:
+            for mode, ns in (("real", 4), ("stub", 0)):
+                i += 1
+                c = {"kind": "heal", "mode": mode, "nstrat": ns, "gen": g, "decay": DECAYS[i % 3],
+                     "max_retries": HEAL_DEFAULTS["max_retries"], "omit": ["max_retries"]}
+                if i % 2:
+                    c["loud"] = True
+                out.append(c)
+        # consecutive heal() calls on one loop
+        hb = self._heal_behaviours(False)
+        for g in hb[::2]:
+            for mr in (0, 1, 2, 4, -1):
+                for mode, ns in (("real", 4), ("stub", 0)):
+                    i += 1
+                    c = {"kind": "heal", "mode": mode, "nstrat": ns, "gen": g, "decay": DECAYS[i % len(DECAYS)],
+                         "max_retries": mr, "again": 1 + i % 3}
+                    if i % 3 == 0:
+                        c["loud"] = True
+                    out.append(c)
+        # swarm: consecutive supervise() calls on one swarm; defaults omitted
+        fams = self._swarm_families(False)
+        for fam in fams:
+            for mg in (0, 1, 2, 4, -1):
+                for ms in (0, 1, 3, 4, 5):
+                    i += 1
+                    again = 1 + i % 3
+                    thr = [0.9, 0.5, 0.0][i % 3]
+                    fac, tab, d = self._swarm_table(fam, (max(mg, 0) + 1) * (again + 1) + 2, max(ms, 0) + 2)
+                    c = {"kind": "swarm", "fac": fac, "beh": tab, "dflt": d, "thr": thr, "max_regen": mg, "max_steps": ms,
+                         "fam": fam[0], "again": again}
+                    if i % 3 == 0:
+                        c["loud"] = True
+                    if i % 4 == 0:
+                        c["wk"] = "proto"
+                    out.append(c)
+        for fam in fams:
+            for omit in (["max_regen"], ["max_steps"], ["thr"], ["max_regen", "max_steps", "thr"]):
+                i += 1
+                mg = SWARM_DEFAULTS["max_regen"] if "max_regen" in omit else i % 4
+                ms = SWARM_DEFAULTS["max_steps"] if "max_steps" in omit else 1 + i % 5
+                thr = SWARM_DEFAULTS["thr"] if "thr" in omit else 0.5
+                fac, tab, d = self._swarm_table(fam, mg + 3, ms + 2)
+                c = {"kind": "swarm", "fac": fac, "beh": tab, "dflt": d, "thr": thr, "max_regen": mg, "max_steps": ms,
+                     "fam": fam[0], "omit": omit}
+                if i % 2:
+                    c["loud"] = True
+                out.append(c)
+        # tool loop: max_iterations / auto_execute omitted (= 10 / True)
+        R = lambda c, calls: ["resp", c, calls]
+        dprovs = [{"fam": "script", "items": [], "dflt": R(1, [0])},
+                  {"fam": "script", "items": [], "dflt": R(2, [10, 21, 32])},
+                  {"fam": "script", "items": [R(3, [10 * k]) for k in range(8)], "dflt": R(3, [990])},
+                  {"fam": "script", "items": [R(5, [1])] * 10 + [R(60, [])], "dflt": R(5, [3])},
+                  {"fam": "script", "items": [R(5, [1])] * 9 + [R(61, [])], "dflt": R(5, [3])},
+                  {"fam": "script", "items": [R(5, [30, 41])] * 9 + [["raise"]], "dflt": R(5, [0])},
+                  {"fam": "chain", "c": 7, "first": [10]},
+                  {"fam": "bysub", "top": R(1, [0]), "sub": R(2, [11])}]
+        for p in dprovs:
+            for ts in ([True, False], [["nest", 2, True], True], ["clear", True]):
+                for omit in (["max_iter"], ["auto"], ["max_iter", "auto"]):
+                    i += 1
+                    c = {"kind": "tool", "prov": p, "comp": [["aff", 100], ["aff", 200], ["raisefinal"]][i % 3], "tools": ts,
+                         "auto": True, "has_method": True, "depth": 1, "omit": omit,
+                         "max_iter": TOOL_DEFAULTS["max_iter"] if "max_iter" in omit else i % 5}
+                    if i % 2:
+                        c["acc"] = True
+                    if i % 3 == 0:
+                        c["cfg"] = True
+                    if i % 4 == 0:
+                        c["more"] = [[2, True]]
+                    out.append(c)
+        # tool loop on an auto-detected provider
+        for names in (0, 1, None, 7):
+            for ts in ([True, False], [False, True], [["nest", 2, True], True], ["clear", True], ["ask", "clear"],
+                       [True, ["nest", 1, False]]):
+                for mi in lim:
+                    for auto in (True, False):
+                        i += 1
+                        if not auto and i % 3:
+                            continue
+                        c = self._mock_tool_case(names, ts, mi, auto)
+                        if i % 2:
+                            c["acc"] = True
+                        if i % 3 == 0:
+                            c["cfg"] = True
+                        if i % 4 == 0:
+                            c["more"] = [[1 + i % 3, True]]
+                        if i % 5 == 0:
+                            c["loud"] = True
+                        out.append(c)
+        return out
+
+    @staticmethod
+    def _mock_tool_case(names, tools, max_iter, auto, depth=1):
+        """Nucleus() without a provider and without API keys: _auto_detect_provider falls back to the library's
+        MockProvider.  `names` = index of the tool the TOP-LEVEL prompts mention (None: no tool).  MockProvider then
+        requests exactly that tool (if registered) in every round, forever; sub-agent prompts name no tool and are
+        answered directly.  'prov'/'comp' describe that behaviour for the model (checked by the correspondence)."""
+        named = names is not None and 0 <= names < len(tools)
+        top = ["resp", 0, [names]] if named else ["resp", 1, []]
+        return {"kind": "tool", "autoprov": True, "names": names, "prov": {"fam": "bysub", "top": top, "sub": ["resp", 1, []]},
+                "comp": ["const", 1], "tools": tools, "auto": auto, "has_method": True, "max_iter": max_iter, "depth": depth}
+
     def exhaustive_cases(self):
         deep = self.tier != "quick"
-        return self._heal_cases(deep) + self._swarm_cases(deep) + self._tool_cases(deep)
+        return (self._decorate(self._heal_cases(deep) + self._swarm_cases(deep) + self._tool_cases(deep))
+                + self._extra_cases(deep))
 
     # -- random scripts ------------------------------------------------------
     def _rand_item(self, rng, p_valid=0.25, p_raise=0.06):
@@ -404,13 +600,31 @@ class C18(Check):
             g = {"fam": "errdep", "first": self._rand_item(rng, 0.1), "e0": rng.choice([0, 1, 2, 3, 4, 5, 6, 7, 8, 9]),
                  "hit": self._rand_item(rng, 0.6), "miss": self._rand_item(rng, 0.1)}
         mode, ns = rng.choice([("real", 4), ("real", 4), ("real", 3), ("real", 2), ("real", 1), ("stub", 0), ("stub", 0)])
-        return {"kind": "heal", "mode": mode, "nstrat": ns, "gen": g, "decay": rng.choice(DECAYS),
+        if f >= 0.93:
+            outs = [self._rand_item(rng, 0.3, 0.0), self._rand_item(rng, 0.7, 0.0)]
+            g = {"fam": "mock", "first": outs[0], "healed": outs[1],
+                 "e0": rng.choice([0, ns, ns, 4] if mode == "real" else [0, 5, 6, 7, 8, 9])}
+        case = {"kind": "heal", "mode": mode, "nstrat": ns, "gen": g, "decay": rng.choice(DECAYS),
                 "max_retries": rng.choice([-1, 0, 1, 2, 3, 4, 5, 6])}
+        if rng.random() < 0.35:
+            case["loud"] = True
+        if rng.random() < 0.2:
+            case["again"] = rng.randint(1, 3)
+        if rng.random() < 0.08:
+            case["max_retries"] = HEAL_DEFAULTS["max_retries"]
+            case["omit"] = ["max_retries"]
+        return case
 
     def _rand_swarm(self, rng):
         mg = rng.choice([-1, 0, 1, 2, 3, 4, 5])
         ms = rng.choice([0, 1, 2, 3, 4, 5, 6, 7, 8])
-        nw, ns = max(mg, 0) + 3, max(ms, 0) + 2
+        again = rng.randint(1, 3) if rng.random() < 0.2 else 0
+        omit = []
+        if rng.random() < 0.08:
+            omit = rng.choice([["max_regen"], ["max_steps"], ["thr"], ["max_regen", "max_steps"]])
+            mg = SWARM_DEFAULTS["max_regen"] if "max_regen" in omit else mg
+            ms = SWARM_DEFAULTS["max_steps"] if "max_steps" in omit else ms
+        nw, ns = (max(mg, 0) + 1) * (again + 1) + 2, max(ms, 0) + 2
         pool = rng.choice([1, 2, 2, 3, 4, 50])
         pm = rng.choice([0.0, 0.03, 0.1])
         pr = rng.choice([0.0, 0.0, 0.03])
@@ -424,8 +638,20 @@ class C18(Check):
             return ["out", rng.randint(0, pool - 1), 0]
         tab = [[step() for _ in range(ns)] for _ in range(nw)]
         fac = [rng.random() > 0.04 for _ in range(nw)]
-        return {"kind": "swarm", "fac": fac, "beh": tab, "dflt": ["out", 777, 0], "thr": rng.choice(THRESHOLDS),
+        case = {"kind": "swarm", "fac": fac, "beh": tab, "dflt": ["out", 777, 0],
+                "thr": SWARM_DEFAULTS["thr"] if "thr" in omit else rng.choice(THRESHOLDS),
                 "max_regen": mg, "max_steps": ms, "fam": "random"}
+        if again:
+            case["again"] = again
+        if omit:
+            case["omit"] = omit
+        if rng.random() < 0.35:
+            case["loud"] = True
+        if rng.random() < 0.3:
+            case["wk"] = "proto"
+        if rng.random() < 0.2:
+            case["timeout"] = rng.choice([0.0, 1e-9, 0.001, 30.0])
+        return case
 
     def _rand_tool(self, rng):
         def calls():
@@ -455,8 +681,26 @@ class C18(Check):
                 "max_iter": rng.choice([-1, 0, 1, 2, 3, 4, 5, 6])}
         if reentrant:
             case["depth"] = rng.choice([0, 1, 1, 2, 2])
+        if rng.random() < 0.08:
+            tl = case["tools"] or [True]
+            case = self._mock_tool_case(rng.choice([None, 0, 0, 1, 2, 7]), tl, case["max_iter"], case["auto"],
+                                        case.get("depth", 1))
         if rng.random() < 0.3:
             case["more"] = [[rng.choice([-1, 0, 1, 2, 3, 4]), rng.random() < 0.85] for _ in range(rng.randint(1, 2))]
+        if rng.random() < 0.06:
+            case["omit"] = rng.choice([["max_iter"], ["auto"], ["max_iter", "auto"]])
+            if "max_iter" in case["omit"]:
+                case["max_iter"] = TOOL_DEFAULTS["max_iter"]
+            if "auto" in case["omit"]:
+                case["auto"] = TOOL_DEFAULTS["auto"]
+        if rng.random() < 0.3:
+            case["loud"] = True
+        if rng.random() < 0.3:
+            case["acc"] = True
+        if rng.random() < 0.25:
+            case["cfg"] = True
+        if rng.random() < 0.2:
+            case["nuc"] = [rng.choice([0, 1, 10, 25]), rng.choice([-1, 0, 1, 3, 7])]
         return case
 
     def gen_cases(self, rng, n):
@@ -468,13 +712,29 @@ class C18(Check):
     # ------------------------------------------------------------------
     # implementation drivers
     # ------------------------------------------------------------------
+    WATCHDOG_S = 20.0   # a loop that lost its bound is cut short by the stubs (Runaway); the watchdog is the last resort
+
     def run_impl(self, case):
         k = case["kind"]
-        if k == "heal":
-            return common.call_with_watchdog(lambda: self._run_heal(case), 5.0)
-        if k == "swarm":
-            return common.call_with_watchdog(lambda: self._run_swarm(case), 5.0)
-        return common.call_with_watchdog(lambda: self._run_tool(case), 5.0)
+        fn = {"heal": self._run_heal, "swarm": self._run_swarm}.get(k, self._run_tool)
+        if not getattr(self, "_warm", False):   # first imports outside the watchdog (slow on a loaded machine)
+            import pydantic  # noqa: F401
+            import operon_ai.healing.chaperone_loop, operon_ai.healing.regenerative_swarm  # noqa: F401,E401
+            import operon_ai.organelles.nucleus, operon_ai.organelles.mitochondria, operon_ai.organelles.chaperone  # noqa: F401,E401
+            import operon_ai.providers  # noqa: F401
+            self._warm = True
+        if not case.get("loud"):
+            return common.call_with_watchdog(lambda: fn(case), self.WATCHDOG_S)
+        # silent=False everywhere: whatever is printed is captured; it must not change any observation
+        buf, old = io.StringIO(), sys.stdout
+        sys.stdout = buf
+        try:
+            obs, trace = common.call_with_watchdog(lambda: fn(case), self.WATCHDOG_S)
+        finally:
+            sys.stdout = old
+        if isinstance(trace, dict):
+            trace["stdout"] = buf.getvalue()
+        return obs, trace
 
     # -- heal ----------------------------------------------------------------
     def _run_heal(self, case):
@@ -501,17 +761,29 @@ class C18(Check):
                          5: "", 6: None}.get(kind, "stub-error-9")
                 return EnhancedFoldedProtein(valid=False, raw_peptide_chain=raw, error_trace=trace, confidence=0.0)
 
-        def mk_chaperone():
+        loud = bool(case.get("loud"))
+        misfolds = []                  # Chaperone's optional on_misfold callback (a recording one, loud cases)
+
+        def mk_chaperone(callback=None):
             if case["mode"] == "stub":
-                return ScriptedChaperone(silent=True)
-            return Chaperone(silent=True, strategies=strategies[:case["nstrat"]])
+                return ScriptedChaperone(silent=not loud)
+            return Chaperone(silent=not loud, strategies=strategies[:case["nstrat"]], on_misfold=callback)
 
         oracle = mk_chaperone()        # independent instance used only to tabulate verdicts
         verdicts = {}                  # output string -> (valid, structure v, Fraction conf, err id, trace text)
         ctx_ids = {}                   # error context string -> (err id, out id)
-        calls = []                     # (k, ctx string | None, (e, p) | None)
+        calls = []                     # every generator invocation: (k within its heal() call, ctx string | None, (e, p) | None)
         outputs = []                   # output strings in order (None = raised)
         loop_box = {}
+        start = [0]                    # generator invocations before the heal() call in progress
+        bound = max(0, case["max_retries"] + 1)
+        g = case["gen"]
+        mockgen = None
+        if g["fam"] == "mock":         # the library's own helper generator
+            mock_out = {out_string(it[1], it[2]): it for it in (g["healed"], g["first"])}
+            mockgen = CL.create_mock_healing_generator(out_string(g["first"][1], g["first"][2]),
+                                                       out_string(g["healed"][1], g["healed"][2]),
+                                                       "Error: " + err_text(g["e0"], case["mode"]) + "\n")
 
         def verdict(raw):
             if raw not in verdicts:
@@ -525,18 +797,23 @@ class C18(Check):
             return verdicts[raw]
 
         def generator(prompt, error_context=None):
-            k = len(calls)
+            kg = len(calls)
+            k = kg - start[0]
             ec = None if error_context is None else ctx_ids.get(error_context, (-1, -1))
             calls.append((k, error_context, ec))
-            if k >= max(0, case["max_retries"] + 1) + SLACK:
+            if k >= bound + SLACK:
                 outputs.append(None)
                 raise Runaway("generator")
-            it = ev_gen(case["gen"], k, ec)
+            if mockgen is not None:
+                s = mockgen(prompt, error_context)
+                it = mock_out[s]
+            else:
+                it = ev_gen(g, kg, ec)
             if it[0] == "raise":
                 outputs.append(None)
                 raise GenError(k)
             if it[0] == "echo":
-                s, oid = f"#{k} {error_context}", it[1]
+                s, oid = f"#{kg} {error_context}", it[1]
             else:
                 s, oid = out_string(it[1], it[2]), item_id(it)
             if ids.setdefault(s, oid) != oid:
@@ -545,63 +822,103 @@ class C18(Check):
             verdict(s)
             return s
 
-        loop = CL.ChaperoneLoop(generator=generator, chaperone=mk_chaperone(), schema=Out,
-                                max_retries=case["max_retries"], confidence_decay=case["decay"], silent=True)
+        kw = {"max_retries": case["max_retries"]}
+        for name in case.get("omit", []):          # constructor default instead (the case carries the default's value)
+            if kw.pop(name) != HEAL_DEFAULTS[name]:
+                raise AssertionError("harness: omitted argument differs from the default")
+        loop = CL.ChaperoneLoop(generator=generator, chaperone=mk_chaperone(misfolds.append if loud else None), schema=Out,
+                                confidence_decay=case["decay"], silent=not loud, **kw)
         loop_box["loop"] = loop
-        res, exc = None, None
-        try:
-            res = loop.heal("prompt")
-        except GenError as e:
-            exc = ("gen", e.args[0])
-        except Runaway as e:
-            exc = ("other", f"runaway {e}")
-        except Exception as e:  # anything else is not the environment's exception
-            exc = ("other", f"{type(e).__name__}: {e}")
 
         def call_line(c):
             k, s, ec = c
             return [10, k, 0, 0, 0] if s is None else [10, k, 1, ec[0], ec[1]]
 
-        trace = {"kind": "heal", "calls": calls, "outputs": outputs, "verdicts": verdicts, "ids": ids, "exc": exc, "res": None}
-        if res is None:
-            obs = [[1, 3, 0, 0, 0, len(calls)], [0, 1]] + [call_line(c) for c in calls]
-            if exc and exc[0] == "other":
-                obs = [[-997]]
-            return obs, trace
-        code = {CL.HealingOutcome.VALID_FIRST_TRY: 0, CL.HealingOutcome.HEALED: 1, CL.HealingOutcome.DEGRADED: 2}[res.outcome]
-        st = res.structure
-        conf = Fraction(res.final_confidence)
-        obs = [[1, code, int(bool(res.ubiquitin_tagged)), int(st is not None), int(st.v) if st is not None else 0, len(calls)],
-               [conf.numerator, conf.denominator]]
-        obs += [call_line(c) for c in calls]
-        for a in res.attempts:
-            ac = Fraction(a.confidence)
-            obs.append([11, a.attempt_number, ids.get(a.raw_output, -1), int(a.error_trace is not None),
-                        err_id_of_trace(a.error_trace) if a.error_trace is not None else 0, int(bool(a.success)),
-                        ac.numerator, ac.denominator])
-        trace["res"] = {"code": code, "valid": bool(res.valid), "tagged": bool(res.ubiquitin_tagged), "conf": conf,
-                        "structure": st, "folded_none": res.folded is None, "schema": Out,
-                        "folded_valid": bool(res.folded.valid) if res.folded is not None else None}
+        runs, obs, other = [], [], None
+        for _ in range(1 + case.get("again", 0)):  # consecutive heal() calls on the one loop
+            start[0] = len(calls)
+            res, exc = None, None
+            try:
+                res = loop.heal("prompt")
+            except GenError as e:
+                exc = ("gen", e.args[0])
+            except Runaway as e:
+                exc = ("other", f"runaway {e}")
+            except Exception as e:  # anything else is not the environment's exception
+                exc = ("other", f"{type(e).__name__}: {e}")
+            rcalls, routs = calls[start[0]:], outputs[start[0]:]
+            run = {"calls": rcalls, "outputs": routs, "exc": exc, "res": None}
+            runs.append(run)
+            if res is None:
+                obs += [[1, 3, 0, 0, 0, len(rcalls)], [0, 1]] + [call_line(c) for c in rcalls]
+                if exc and exc[0] == "other":
+                    other = exc
+                    break
+                continue
+            code = {CL.HealingOutcome.VALID_FIRST_TRY: 0, CL.HealingOutcome.HEALED: 1, CL.HealingOutcome.DEGRADED: 2}[res.outcome]
+            st = res.structure
+            conf = Fraction(res.final_confidence)
+            obs += [[1, code, int(bool(res.ubiquitin_tagged)), int(st is not None), int(st.v) if st is not None else 0, len(rcalls)],
+                    [conf.numerator, conf.denominator]]
+            obs += [call_line(c) for c in rcalls]
+            for a in res.attempts:
+                ac = Fraction(a.confidence)
+                obs.append([11, a.attempt_number, ids.get(a.raw_output, -1), int(a.error_trace is not None),
+                            err_id_of_trace(a.error_trace) if a.error_trace is not None else 0, int(bool(a.success)),
+                            ac.numerator, ac.denominator])
+            run["res"] = {"code": code, "valid": bool(res.valid), "tagged": bool(res.ubiquitin_tagged), "conf": conf,
+                          "structure": st, "folded_none": res.folded is None, "schema": Out,
+                          "folded_valid": bool(res.folded.valid) if res.folded is not None else None}
+        trace = {"kind": "heal", "runs": runs, "calls": calls, "outputs": outputs, "verdicts": verdicts, "ids": ids,
+                 "exc": other, "res": runs[0]["res"], "misfolds": len(misfolds)}
+        if other:
+            obs = [[-997]]
         return obs, trace
 
     # -- swarm ---------------------------------------------------------------
     def _run_swarm(self, case):
         from operon_ai.healing import regenerative_swarm as RS
         tab, fac, dflt = case["beh"], case["fac"], case["dflt"]
-        spawned = []           # worker indices in factory-invocation order
+        spawned = []           # worker indices in factory-invocation order (over all supervise() calls)
         steps = {}             # worker idx -> list of (output string | None)
+        hints_seen = []        # memory hints handed to the factory
         seen_strings = {}
+        start = [0]            # factory invocations before the supervise() call in progress
+        wbound = max(0, case["max_regen"] + 1)
+        proto = case.get("wk") == "proto"
+        loud = bool(case.get("loud"))
 
         def beh(w, j):
             if w < len(tab) and j < len(tab[w]):
                 return tab[w][j]
             return dflt
 
+        class ProtoWorker:
+            """a Worker (the protocol: id, memory, step) that is not a SimpleWorker; it records errors in its memory"""
+
+            def __init__(self, name, work):
+                self._id, self._work, self._memory = name, work, RS.WorkerMemory()
+
+            @property
+            def id(self):
+                return self._id
+
+            @property
+            def memory(self):
+                return self._memory
+
+            def step(self, task):
+                n = len(self._memory.task_history)
+                out = self._work(task, self._memory)
+                self._memory.add_attempt(task, out, f"no completion marker at step {n}" if n % 2 == 0 else None)
+                return out
+
         def factory(name, hints):
             w = int(name.split("_")[1]) - 1
             spawned.append(w)
             steps[w] = []
-            if len(spawned) > max(0, case["max_regen"] + 1) + SLACK:
+            hints_seen.append(list(hints))
+            if len(spawned) - start[0] > wbound + SLACK:
                 raise Runaway("factory")
             if w < len(fac) and not fac[w]:
                 raise FactoryError(w)
@@ -621,22 +938,16 @@ class C18(Check):
                     raise AssertionError("harness: md5[:8] collision between scripted outputs")
                 steps[w].append(s)
                 return s
-            return RS.SimpleWorker(id=name, work_function=work)
+            return ProtoWorker(name, work) if proto else RS.SimpleWorker(id=name, work_function=work)
 
-        swarm = RS.RegenerativeSwarm(worker_factory=factory, summarizer=RS.create_default_summarizer(),
-                                     entropy_threshold=case["thr"], max_steps_per_worker=case["max_steps"],
-                                     max_regenerations=case["max_regen"], silent=True)
-        res, exc = None, None
-        try:
-            res = swarm.supervise("task")
-        except FactoryError as e:
-            exc = ("factory", e.args[0])
-        except StepError as e:
-            exc = ("step", e.args[0])
-        except Runaway as e:
-            exc = ("other", f"runaway {e}")
-        except Exception as e:
-            exc = ("other", f"{type(e).__name__}: {e}")
+        kw = {"entropy_threshold": case["thr"], "max_steps_per_worker": case["max_steps"], "max_regenerations": case["max_regen"]}
+        for name in case.get("omit", []):          # dataclass default instead (the case carries the default's value)
+            key = {"thr": "entropy_threshold", "max_steps": "max_steps_per_worker", "max_regen": "max_regenerations"}[name]
+            if kw.pop(key) != SWARM_DEFAULTS[name]:
+                raise AssertionError("harness: omitted argument differs from the default")
+        if case.get("timeout") is not None:
+            kw["step_timeout"] = _dt.timedelta(seconds=case["timeout"])
+        swarm = RS.RegenerativeSwarm(worker_factory=factory, summarizer=RS.create_default_summarizer(), silent=not loud, **kw)
 
         def wid(s):
             return int(s.split("_")[1]) - 1
@@ -645,30 +956,59 @@ class C18(Check):
             m = re.search(r"(\d+)", s)
             return int(m.group(1)) if m else -1
 
-        trace = {"kind": "swarm", "spawned": spawned, "steps": steps, "exc": exc, "res": None}
-        if exc and exc[0] == "other":
+        runs, obs, other = [], [], None
+        n_ap = n_rg = 0        # apoptosis / regeneration events recorded on the swarm before the call in progress
+        for _ in range(1 + case.get("again", 0)):  # consecutive supervise() calls on the one swarm
+            w0 = start[0] = len(spawned)
+            res, exc = None, None
+            try:
+                res = swarm.supervise("task")
+            except FactoryError as e:
+                exc = ("factory", e.args[0])
+            except StepError as e:
+                exc = ("step", e.args[0])
+            except Runaway as e:
+                exc = ("other", f"runaway {e}")
+            except Exception as e:
+                exc = ("other", f"{type(e).__name__}: {e}")
+            rsp = spawned[w0:]
+            run = {"w0": w0, "spawned": rsp, "steps": {w: steps[w] for w in rsp}, "exc": exc, "res": None}
+            runs.append(run)
+            if exc and exc[0] == "other":
+                other = exc
+                break
+            final = wid(res.final_worker_id) if (res is not None and res.final_worker_id is not None) else None
+            wlines = []
+            for w in rsp:
+                ss = steps[w]
+                if w < len(fac) and not fac[w]:
+                    code = 4
+                elif ss and ss[-1] is None:
+                    code = 3
+                elif res is not None and res.success and w == final:
+                    code = 0
+                else:
+                    code = 1
+                wlines.append([20, w - w0, len(ss), code])
+            if res is None:
+                obs += [[2, 0, 0, 0, 0, len(rsp), 0, -1]] + wlines
+                # events the interrupted call left on the object are not part of a later call's result
+                n_ap = len(getattr(swarm, "_apoptosis_events", ())) or n_ap
+                n_rg = len(getattr(swarm, "_regeneration_events", ())) or n_rg
+                continue
+            out = res.output
+            new_rg = res.regeneration_events[n_rg:]
+            obs += [[2, 1, int(bool(res.success)), int(out is not None), parse_out(out) if out is not None else 0,
+                     len(rsp), len(res.apoptosis_events) - n_ap, final - w0 if final is not None else -1]] + wlines
+            obs += [[21, wid(r.old_worker_id) - w0, wid(r.new_worker_id) - w0] for r in new_rg]
+            n_ap, n_rg = len(res.apoptosis_events), len(res.regeneration_events)
+            run["res"] = {"success": bool(res.success), "output": out, "total": res.total_workers_spawned,
+                          "final": final if final is not None else -1}
+        r0 = runs[0]
+        trace = {"kind": "swarm", "runs": runs, "spawned": spawned, "steps": steps, "exc": other if other else r0["exc"],
+                 "res": r0["res"], "hints": hints_seen}
+        if other:
             return [[-997]], trace
-        final = wid(res.final_worker_id) if (res is not None and res.final_worker_id is not None) else -1
-        wlines = []
-        for w in spawned:
-            ss = steps[w]
-            if w < len(fac) and not fac[w]:
-                code = 4
-            elif ss and ss[-1] is None:
-                code = 3
-            elif res is not None and res.success and w == final:
-                code = 0
-            else:
-                code = 1
-            wlines.append([20, w, len(ss), code])
-        if res is None:
-            obs = [[2, 0, 0, 0, 0, len(spawned), 0, -1]] + wlines
-            return obs, trace
-        out = res.output
-        obs = [[2, 1, int(bool(res.success)), int(out is not None), parse_out(out) if out is not None else 0,
-                len(spawned), len(res.apoptosis_events), final]] + wlines
-        obs += [[21, wid(r.old_worker_id), wid(r.new_worker_id)] for r in res.regeneration_events]
-        trace["res"] = {"success": bool(res.success), "output": out, "total": res.total_workers_spawned, "final": final}
         return obs, trace
 
     # -- tool loop -----------------------------------------------------------
@@ -677,9 +1017,10 @@ class C18(Check):
         top-level calls.  Every provider / mitochondria invocation is attributed to the activation of
         transcribe_with_tools that is executing at that moment (a stack of frames kept by the harness: the stub
         tools push a frame around their own use of the nucleus)."""
-        from operon_ai.organelles.nucleus import Nucleus
+        from operon_ai.organelles import nucleus as NU
         from operon_ai.organelles.mitochondria import Mitochondria
-        from operon_ai.providers import LLMResponse, ToolCall
+        from operon_ai.providers import LLMResponse, ToolCall, ProviderConfig, MockProvider
+        Nucleus = NU.Nucleus
         lines = []      # chronological observation lines
         frames = []     # every activation / tool frame ever opened
         stack = []      # frames currently open, outermost first
@@ -688,6 +1029,28 @@ class C18(Check):
         top_calls = [[case["max_iter"], case["auto"]]] + [list(c) for c in case.get("more", [])]
         counter = {"tools": 0}
         CAP = 60000
+        mock = bool(case.get("autoprov"))     # the provider is whatever Nucleus() detects (MockProvider), not a stub
+        names = case.get("names")
+        omit = case.get("omit", [])
+        cfg = ProviderConfig(temperature=0.0, max_tokens=7, timeout_seconds=0.5, system_prompt="sys") if case.get("cfg") else None
+        peeks = []      # values returned by the read-only accessors (case['acc'])
+        mock_default = MockProvider().default_response
+
+        def cid(content):
+            """response content -> id (stub responses are 'r<id>'; MockProvider: '' with tool calls, else its default)"""
+            m = re.fullmatch(r"r(-?\d+)", content)
+            if m:
+                return int(m.group(1))
+            return 0 if content == "" else 1 if content == mock_default else -5
+
+        def prompt_of(q):
+            if mock and names is not None and q < 100:
+                return f"p{q} use tool{names}"
+            return f"p{q}"
+
+        def peek():
+            if case.get("acc"):
+                peeks.append((nuc.get_total_energy_consumed(), nuc.get_total_tokens_used()))
 
         def parse_prompt(prompt):
             m = re.match(r"p(-?\d+)", prompt)
@@ -717,6 +1080,8 @@ class C18(Check):
             stack.append(fr)
             return fr
 
+        real = {}       # mock mode: the provider object the nucleus detected; the spies below delegate to it
+
         class PlainProvider:
             name = "stub"
 
@@ -731,11 +1096,15 @@ class C18(Check):
                 fr["seq"].append("complete")
                 if len(lines) > CAP or fr["nc"] > SLACK:
                     raise Runaway("complete")
+                if mock:
+                    return real["p"].complete(prompt, config)
                 c = case["comp"]
                 if c[0] == "raise" or (c[0] == "raisefinal" and final):
                     raise ProviderError("provider-complete")
                 if c[0] == "raisefinal":
                     return resp(0)
+                if c[0] == "const":
+                    return resp(c[1])
                 return resp(c[1] + int(final) + 2 * sum(prev) + 7 * q)
 
         class ToolProvider(PlainProvider):
@@ -749,6 +1118,8 @@ class C18(Check):
                 fr["seq"].append("tools")
                 if len(lines) > CAP or fr["limit"] is None or fr["nt"] > max(0, fr["limit"]) + SLACK:
                     raise Runaway("complete_with_tools")
+                if mock:
+                    return real["p"].complete_with_tools(prompt, tools, config)
                 it = ev_prov(case["prov"], k, prev, q)
                 if it[0] == "raise":
                     raise ProviderError(f"provider-{k}")
@@ -758,11 +1129,17 @@ class C18(Check):
                     tcs = None
                 return resp(c), tcs
 
+        def call_code(call):
+            """tool call -> 10 * argument + tool index (MockProvider: id 'mock_call_tool<t>', argument = the prompt -> 0)"""
+            if call.id.startswith("mock_call_tool"):
+                return int(call.id[len("mock_call_tool"):])
+            return int(call.id[1:])
+
         class SpyMito(Mitochondria):
             def execute_tool_call(self, call):
                 fr = stack[-1]
                 r = super().execute_tool_call(call)
-                code = int(call.id[1:])
+                code = call_code(call)
                 if r.success:
                     rc = int(r.output)
                 elif r.error.startswith("Unknown tool"):
@@ -778,19 +1155,48 @@ class C18(Check):
                 fr["seq"].append("exec")
                 return r
 
-        mito = SpyMito(silent=True)
-        provider = ToolProvider() if case["has_method"] else PlainProvider()
-        nuc = Nucleus(provider=provider)
+        mito = SpyMito(silent=not case.get("loud"))
+        nkw = {}
+        if case.get("nuc"):
+            nkw = {"base_energy_cost": case["nuc"][0], "max_retries": case["nuc"][1]}
+        detect_warnings = []
+        if mock:
+            # no provider given and no API key in the environment: Nucleus._auto_detect_provider -> MockProvider
+            saved = {k: os.environ.pop(k) for k in API_KEYS if k in os.environ}
+            try:
+                with warnings.catch_warnings(record=True) as wl:
+                    warnings.simplefilter("always")
+                    nuc = Nucleus(**nkw)
+                detect_warnings = [str(w.message) for w in wl]
+            finally:
+                os.environ.update(saved)
+            if type(nuc.provider) is not MockProvider:
+                raise AssertionError(f"harness: auto-detection gave {type(nuc.provider).__name__}, not MockProvider")
+            real["p"] = nuc.provider
+            spy = ToolProvider()
+            spy.name = real["p"].name
+            nuc.provider = spy          # same behaviour, invocations recorded
+        else:
+            provider = ToolProvider() if case["has_method"] else PlainProvider()
+            nuc = Nucleus(provider=provider, **nkw)
         invoked = []
 
-        def run_twt(q, limit, auto):
+        def run_twt(q, limit, auto, top=False):
             """one activation of transcribe_with_tools on THE nucleus -> content id; the provider's exception propagates"""
             fr = new_frame("twt", q, limit, auto)
             lines.append([33, fr["dep"], q, limit, int(auto)])
+            kw = {"max_iterations": limit, "auto_execute": auto}
+            if top:                     # the first top-level call leaves the omitted arguments to their defaults
+                for name in omit:
+                    key = {"max_iter": "max_iterations", "auto": "auto_execute"}[name]
+                    if kw.pop(key) != TOOL_DEFAULTS[name]:
+                        raise AssertionError("harness: omitted argument differs from the default")
+            if cfg is not None:
+                kw["config"] = cfg
             try:
-                r = nuc.transcribe_with_tools(f"p{q}", mito, max_iterations=limit, auto_execute=auto)
+                r = nuc.transcribe_with_tools(prompt_of(q), mito, **kw)
                 fr["returned"] = True
-                c = int(r.content[1:])
+                c = cid(r.content)
                 lines.append([34, fr["dep"], 1, c, fr["nt"], fr["nc"], fr["ne"]])
                 return c
             except ProviderError:
@@ -808,8 +1214,9 @@ class C18(Check):
 
         for t, kind in enumerate(tools):
             def mk(t, kind):
-                def f(a):
+                def f(a=0, input=None):     # stub providers pass a; MockProvider passes input=<the prompt>
                     invoked.append((t, a))
+                    peek()
                     if kind is False:
                         raise ValueError(f"boom-{a + 1}")
                     if kind is True:
@@ -823,7 +1230,9 @@ class C18(Check):
                     if kind == "ask":
                         new_frame("ask", q, None, None)
                         try:
-                            return int(nuc.transcribe(f"p{q}").content[1:])
+                            if cfg is not None:
+                                return cid(nuc.transcribe(prompt_of(q), cfg).content)
+                            return cid(nuc.transcribe(prompt_of(q)).content)
                         finally:
                             stack.pop()
                     _nest, limit, auto = kind
@@ -836,7 +1245,7 @@ class C18(Check):
         exc = None
         for j, (limit, auto) in enumerate(top_calls):
             try:
-                run_twt(j, limit, auto)
+                run_twt(j, limit, auto, top=(j == 0))
             except ProviderError:
                 pass
             except Runaway as e:
@@ -845,11 +1254,13 @@ class C18(Check):
                 exc = ("other", f"{type(e).__name__}: {e}")
             if exc:
                 break
+            peek()
             lines.append([37, len(nuc.transcription_log)])
-        trace = {"kind": "tool", "frames": frames, "exc": exc, "invoked": invoked, "lines": lines}
+        trace = {"kind": "tool", "frames": frames, "exc": exc, "invoked": invoked, "lines": lines, "peeks": peeks,
+                 "detect_warnings": detect_warnings}
         if exc:
             return [[-997]], trace
-        log = [int(t.response.content[1:]) for t in nuc.transcription_log]
+        log = [cid(t.response.content) for t in nuc.transcription_log]
         obs = [[3, len(top_calls), len(log)], [36] + log] + lines
         return obs, trace
 
@@ -863,9 +1274,12 @@ class C18(Check):
         if k == "swarm":
             def st(s):
                 return "WStepRaise" if s[0] == "raise" else f"(WOut {cz(s[1])} {cbool(s[2] != 0)})"
-            return (f"(CSwarm {clist([cbool(b) for b in case['fac']])} "
+            body = (f"{clist([cbool(b) for b in case['fac']])} "
                     f"{clist([clist([st(s) for s in row]) for row in case['beh']])} {st(case['dflt'])} "
-                    f"{cq(Fraction(case['thr']))}%Q {cz(case['max_regen'])} {cz(case['max_steps'])})")
+                    f"{cq(Fraction(case['thr']))}%Q {cz(case['max_regen'])} {cz(case['max_steps'])}")
+            if case.get("again"):
+                return f"(CSwarmSeq {body} {cnat(1 + case['again'])})"
+            return f"(CSwarm {body})"
 
         def pi(it):
             return "PIRaise" if it[0] == "raise" else f"(PI {cz(it[1])} {czl(it[2])})"
@@ -879,7 +1293,8 @@ class C18(Check):
         else:
             pt = f"(PChain {cz(p['c'])} {czl(p['first'])})"
         c = case["comp"]
-        ct = {"aff": f"(CAff {cz(c[1]) if len(c) > 1 else 0})", "raise": "CRaise", "raisefinal": "CRaiseFinal"}[c[0]]
+        ct = {"aff": f"(CAff {cz(c[1]) if len(c) > 1 else 0})", "raise": "CRaise", "raisefinal": "CRaiseFinal",
+              "const": f"(CConst {cz(c[1]) if len(c) > 1 else 0})"}[c[0]]
 
         def tk(k):
             if k is True:
@@ -917,9 +1332,14 @@ class C18(Check):
         elif g["fam"] == "echo":
             ha = "None" if g["heal_at"] is None else f"(Some {cnat(g['heal_at'])})"
             gt = f"(GEcho {gi(g['first'])} {ha} {gi(g['healed'])})"
+        elif g["fam"] == "mock":       # create_mock_healing_generator: healed output iff the context carries error e0
+            gt = f"(GErrDep {gi(g['first'])} {cz(g['e0'])} {gi(g['healed'])} {gi(g['first'])})"
         else:
             gt = f"(GErrDep {gi(g['first'])} {cz(g['e0'])} {gi(g['hit'])} {gi(g['miss'])})"
-        return f"(CHeal {gt} {clist(rows)} {cq(Fraction(case['decay']))}%Q {cz(case['max_retries'])})"
+        body = f"{gt} {clist(rows)} {cq(Fraction(case['decay']))}%Q {cz(case['max_retries'])}"
+        if case.get("again"):
+            return f"(CHealSeq {body} {cnat(1 + case['again'])})"
+        return f"(CHeal {body})"
 
     # ------------------------------------------------------------------
     # the property itself, on the implementation's trace
@@ -935,8 +1355,18 @@ class C18(Check):
         return v
 
     def _mon_heal(self, case, t):
+        """the property, for every heal() call made on the loop (consecutive calls: each one on its own)"""
+        for n, run in enumerate(t["runs"]):
+            v = self._mon_heal_run(case, t, run)
+            if v is not None:
+                if n:
+                    v.what += f" [in heal() call #{n + 1} on the same ChaperoneLoop]"
+                return v
+        return None
+
+    def _mon_heal_run(self, case, t, run):
         bound = max(0, case["max_retries"] + 1)
-        calls, outs, ver, ids = t["calls"], t["outputs"], t["verdicts"], t["ids"]
+        calls, outs, ver, ids = run["calls"], run["outputs"], t["verdicts"], t["ids"]
         if len(calls) > bound:
             return Violation("C18/heal-too-many-generator-calls", f"generator called {len(calls)} times with max_retries={case['max_retries']}")
         for i, (k, s, ec) in enumerate(calls):
@@ -951,10 +1381,10 @@ class C18(Check):
             if s is None or ec != want or ver[prev][4] not in s:
                 return Violation("C18/heal-retry-misses-previous-error",
                                  f"attempt {i} received error context {ec} (text {s!r:.80}), expected the error of attempt {i - 1}: {want}")
-        r = t["res"]
+        r = run["res"]
         if r is None:
-            if not (t["exc"] and t["exc"][0] == "gen" and outs and outs[-1] is None):
-                return Violation("C18/heal-raises", f"heal raised {t['exc']} although the generator did not raise")
+            if not (run["exc"] and run["exc"][0] == "gen" and outs and outs[-1] is None):
+                return Violation("C18/heal-raises", f"heal raised {run['exc']} although the generator did not raise")
             return None
         if r["code"] in (0, 1):
             last = outs[-1] if outs else None
@@ -979,11 +1409,21 @@ class C18(Check):
         return None
 
     def _mon_swarm(self, case, t):
+        """the property, for every supervise() call made on the swarm (consecutive calls: each one on its own)"""
+        for n, run in enumerate(t["runs"]):
+            v = self._mon_swarm_run(case, run, n == 0)
+            if v is not None:
+                if n:
+                    v.what += f" [in supervise() call #{n + 1} on the same RegenerativeSwarm]"
+                return v
+        return None
+
+    def _mon_swarm_run(self, case, t, first):
         wb = max(0, case["max_regen"] + 1)
         sb = max(0, case["max_steps"])
         if len(t["spawned"]) > wb:
             return Violation("C18/swarm-too-many-workers", f"{len(t['spawned'])} workers spawned with max_regenerations={case['max_regen']}")
-        if t["spawned"] != list(range(len(t["spawned"]))):
+        if t["spawned"] != list(range(t["w0"], t["w0"] + len(t["spawned"]))):
             return Violation("C18/swarm-worker-numbering", f"workers spawned as {t['spawned']}")
         for w, ss in t["steps"].items():
             if len(ss) > sb:
@@ -997,7 +1437,7 @@ class C18(Check):
             if not raised:
                 return Violation("C18/swarm-raises", f"supervise raised {ex} although the environment did not raise")
             return None
-        if r["total"] != len(t["spawned"]):
+        if first and r["total"] != len(t["spawned"]):
             return Violation("C18/swarm-spawn-count-misreported", f"total_workers_spawned={r['total']} but the factory ran {len(t['spawned'])} times")
         if r["success"]:
             last = t["spawned"][-1] if t["spawned"] else None
@@ -1053,15 +1493,30 @@ class C18(Check):
         tags = [k]
         if not isinstance(trace, dict) or not obs or obs[0][0] < 0:
             return tags + [k + ":error"]
+        for flag, tag in (("loud", "silent=False(stdout captured)"), ("again", "consecutive-calls-on-one-object"),
+                          ("omit", "defaults-omitted"), ("wk", "protocol-worker-with-error-memory"),
+                          ("timeout", "step_timeout"), ("acc", "accessors-interleaved"), ("cfg", "provider-config"),
+                          ("nuc", "nucleus-fields"), ("autoprov", "auto-detected-MockProvider")):
+            if flag in case and case[flag] is not None and case[flag] is not False and case[flag] != []:
+                tags.append(f"{k}:{tag}")
+        if case.get("loud") and trace.get("stdout"):
+            tags.append(f"{k}:printed-something")
         if k == "heal":
+            ncalls = len(trace["runs"][0]["calls"])
             tags.append(f"heal:outcome={['valid_first_try', 'healed', 'degraded', 'generator_raised'][obs[0][1]]}")
             tags.append(f"heal:max_retries={case['max_retries']}")
-            tags.append(f"heal:calls={len(trace['calls'])}")
+            tags.append(f"heal:calls={ncalls}")
             tags.append(f"heal:gen={case['gen']['fam']}")
             tags.append(f"heal:chaperone={case['mode']}")
-            if len(trace["calls"]) == max(0, case["max_retries"] + 1):
+            if ncalls == max(0, case["max_retries"] + 1):
                 tags.append("heal:budget-hit-exactly")
+            if trace.get("misfolds"):
+                tags.append("heal:on_misfold-callback-invoked")
         elif k == "swarm":
+            full = trace
+            trace = trace["runs"][0]
+            if any(any("Encountered errors" in h for h in hs) for hs in full.get("hints", [])):
+                tags.append("swarm:error-hints-passed-on")
             tags.append("swarm:" + ("raised" if trace["res"] is None else "success" if trace["res"]["success"] else "failed"))
             tags.append(f"swarm:max_regen={case['max_regen']}")
             tags.append(f"swarm:max_steps={case['max_steps']}")
